@@ -87,6 +87,18 @@ def ep_from_path_all(data):
         os.unlink(path)
 
 
+def ep_guard_options(data):
+    """from_bytes on a payload with two Guardrails areas of which only the second verifies: the guard settings that
+    come with the configuration are the second area's (GUARD_COMPUTER + checksum), nothing of the first one."""
+    from dissect.cobaltstrike import beacon
+
+    bc = beacon.BeaconConfig.from_bytes(data)
+    opts = [s.option.value for s in bc.guardrails.settings]
+    if opts != [G.G_COMPUTER, G.G_CHECKSUM]:
+        raise Disagree(f"guard settings of the returned configuration: options {opts}, expected {[G.G_COMPUTER, G.G_CHECKSUM]}")
+    return opts
+
+
 def ep_block(data):
     from dissect.cobaltstrike import beacon
 
@@ -136,7 +148,7 @@ def ep_http(data):
 
 PE_EPS = [_pe(n) for n in ("find_mz_offset", "find_architecture", "find_compile_stamps", "find_magic_mz", "find_magic_pe", "find_stage_prepend_append")]
 BEACON_EPS = [ep_from_bytes, ep_xor_from_file] + PE_EPS
-ALL_EPS = {f.__name__: f for f in [ep_from_bytes, ep_from_bytes_all, ep_from_file, ep_from_path, ep_from_path_all, ep_block, ep_xor_from_file, ep_artifact, ep_http] + PE_EPS}
+ALL_EPS = {f.__name__: f for f in [ep_guard_options, ep_from_bytes, ep_from_bytes_all, ep_from_file, ep_from_path, ep_from_path_all, ep_block, ep_xor_from_file, ep_artifact, ep_http] + PE_EPS}
 
 
 class Budget(Exception):
@@ -191,7 +203,8 @@ def run_ep(acc, fn, data, case):
             acc.count("slow_but_terminating")
     except Disagree as e:
         out = "Disagree"
-        acc.fail(f"C08/result-depends-on-handle-position/{name}", dict(case, entry=fn.__name__), "the same result", str(e)[:200])
+        sig = "C08/documented-result/guard-settings-of-another-area" if str(e).startswith("guard settings") else f"C08/result-depends-on-handle-position/{name}"
+        acc.fail(sig, dict(case, entry=fn.__name__), "the same result" if "handle" in sig else "GUARD_COMPUTER + GUARD_PAYLOAD_CHECKSUM", str(e)[:200])
     except MemoryError:
         out = "MemoryError"
         acc.fail(f"C08/exception/{name}/MemoryError", dict(case, entry=fn.__name__), "result or ValueError", "MemoryError")
@@ -579,6 +592,22 @@ def chunk_wellformed(chunk, acc):
                 eps = [ep_from_bytes_all, ep_from_path_all] if key == 0xAF else [ep_from_bytes, ep_from_path, ep_from_bytes_all]
                 for label, data in (("pe", img), ("xor", enc)):
                     run_input(acc, eps + [ep_xor_from_file] * (label == "xor") + PE_EPS[:2], data, {"kind": "wellformed", "container": label, "arch": arch, "key": key, "seed": acc.seed}, ("wf", label, arch, key), expect_ok=True)
+        # a stage without end-of-stub marker whose nonce sits at the last offsets of the documented 1024-byte range:
+        # only the size field can locate it
+        img = refpe.build_pe(arch="x86", data=b"\x11" * 8 + obf(blk) + b"\x22" * 8)
+        for n in (1000, 1015, 1016, 1017, 1018, 1019, 1020, 1021, 1022, 1023):
+            acc.states += 1
+            enc = xorenc.encode(img, stub=b"\x90" * n)
+            run_input(acc, [ep_xor_from_file, ep_from_bytes], enc, {"kind": "wellformed", "container": "xor-size-only", "arch": "x86", "key": n, "seed": acc.seed}, ("wf-size-only", n), expect_ok=True)
+        # two Guardrails areas, the first one with a wrong checksum (never unmasked): the reported guard settings are
+        # those of the area whose configuration is returned
+        cfg = tlv.encode(RC.http_settings()[:6] + [(8, 3, b"h,/u".ljust(32, b"\x00"))])
+        bad_area, _, _ = G.protect(cfg, b"\x07\x01\x09\x02", [(G.G_USER, b"\x12\x34"), (G.G_DOMAIN, b"\x00\x01")], checksum_delta=2)
+        good_area, _, _ = G.protect(cfg, b"\x11\x22\x33", [(G.G_COMPUTER, b"\xab\xcd")])
+        for filler in (b"", b"\x90" * 37):
+            data = b"\x55" * 16 + bad_area + filler + good_area + b"\x55" * 9
+            acc.states += 1
+            run_input(acc, [ep_guard_options], data, {"kind": "wellformed", "container": "two-guard-areas", "arch": "-", "key": len(filler), "seed": acc.seed}, ("wf-guards", len(filler)), expect_ok=True)
     else:
         lo = {1: 8170, 2: 16360, 3: 24560, 4: 32760}[chunk["part"]]
         for off in range(lo, lo + 45):
